@@ -500,23 +500,24 @@ Proof. intros. unfold suicide. destruct (get_obj a s); [apply wf_set_obj|]; assu
 
 (* totals *)
 Lemma total_set_obj : forall a x s, wf s -> total (set_obj a x s) + obal (get_obj a s) = total s + a_bal x.
-Proof. intros. unfold total, set_obj, get_obj. cbn. apply asum_aset. assumption. Qed.
+Proof. intros. unfold total, set_obj, get_obj, with_accts. cbn [accts]. apply asum_aset. assumption. Qed.
 
 Lemma total_push_j : forall e s, total (push_j e s) = total s. Proof. reflexivity. Qed.
 
 Lemma total_create_object_new : forall a s, wf s -> get_obj a s = None -> total (create_object a s) = total s.
 Proof.
-  intros a s W E. unfold create_object. rewrite E.
-  pose proof (total_set_obj a fresh (push_j (JCreate a) s) W) as H.
+  intros a s W E. destruct (create_object_new a s E) as (e & He & _). rewrite He.
+  pose proof (total_set_obj a fresh (push_j e s) W) as H.
   rewrite get_obj_push_j, E in H. cbn [obal fresh a_bal] in H. rewrite total_push_j in H. lia.
 Qed.
 
-Lemma total_create_account : forall a s, wf s -> total (create_account a s) = total s.
+(* with the resurrection of deleted balances switched off (the repaired code) *)
+Lemma total_create_account : forall a s, wf s -> total (create_account false a s) = total s.
 Proof.
   intros a s W. unfold create_account. destruct (get_obj a s) as [prev|] eqn:E.
-  - pose proof (total_set_obj a (mkAcct 0 (a_bal prev) 0 [] [] false) (push_j (JReset a prev) s) W) as H.
+  - pose proof (total_set_obj a (mkAcct 0 (a_bal prev) 0 [] [] [] false) (push_j (JReset a prev) s) W) as H.
     rewrite get_obj_push_j, E in H. cbn [obal a_bal] in H. rewrite total_push_j in H. lia.
-  - apply total_create_object_new; assumption.
+  - destruct (alookup a (graves s)); apply total_create_object_new; assumption.
 Qed.
 
 Lemma total_get_or_new : forall a s, wf s -> total (get_or_new a s) = total s.
@@ -534,7 +535,7 @@ Qed.
 Lemma get_balance_get_or_new : forall a s, get_balance a (get_or_new a s) = get_balance a s.
 Proof.
   intros. unfold get_or_new, get_balance. destruct (get_obj a s) eqn:E; [rewrite E; reflexivity|].
-  unfold create_object. rewrite E, get_obj_set_obj, addr_eqb_refl. reflexivity.
+  destruct (create_object_new a s E) as (e & He & _). rewrite He, get_obj_set_obj, addr_eqb_refl. reflexivity.
 Qed.
 
 Lemma total_add_balance : forall a amt s, wf s -> total (add_balance a amt s) = total s + amt.
@@ -597,16 +598,18 @@ Qed.
 
 Lemma veq_set_obj_fresh : forall a s, get_obj a s = None -> veq s (set_obj a fresh s).
 Proof.
-  intros a s E. seq3; try reflexivity. intro b. st. rewrite alookup_aset. destruct (addr_eqb b a) eqn:Eb; [|reflexivity].
+  intros a s E. split; [|split; [reflexivity | split; reflexivity]].
+  intro b. st. rewrite alookup_aset. destruct (addr_eqb b a) eqn:Eb; [|reflexivity].
   apply addr_eqb_eq in Eb. subst. unfold get_obj in E. rewrite E. reflexivity.
 Qed.
 
-Lemma veq_push_j : forall e s, veq s (push_j e s). Proof. intros. seq3; reflexivity. Qed.
+Lemma veq_push_j : forall e s, veq s (push_j e s).
+Proof. intros. split; [intro; reflexivity | split; [reflexivity | split; reflexivity]]. Qed.
 
 Lemma veq_create_object_new : forall a s, get_obj a s = None -> veq s (create_object a s).
 Proof.
-  intros a s E. unfold create_object. rewrite E.
-  eapply veq_trans; [apply (veq_push_j (JCreate a)) | apply veq_set_obj_fresh; exact E].
+  intros a s E. destruct (create_object_new a s E) as (e & He & _). rewrite He.
+  eapply veq_trans; [apply (veq_push_j e) | apply veq_set_obj_fresh; exact E].
 Qed.
 
 Lemma veq_get_or_new : forall a s, veq s (get_or_new a s).
@@ -619,8 +622,47 @@ Proof.
   destruct (acct_empty _); [apply veq_push_j | apply veq_refl].
 Qed.
 
-Lemma veq_create_account_new : forall a s, exist a s = false -> veq s (create_account a s).
+(* with the resurrection of deleted balances switched off (the repaired code) *)
+Lemma veq_create_account_new : forall a s, exist a s = false -> veq s (create_account false a s).
 Proof.
   intros a s E. unfold exist in E. unfold create_account. destruct (get_obj a s) eqn:E1; [discriminate|].
-  apply veq_create_object_new. exact E1.
+  destruct (alookup a (graves s)); apply veq_create_object_new; exact E1.
+Qed.
+
+(* ---- Finalise between the transactions of a block ---------------------------------- *)
+
+Lemma wf_finalise1 : forall a s, wf s -> wf (finalise1 a s).
+Proof.
+  intros a s W. unfold finalise1. destruct (get_obj a s) as [x|]; [|exact W].
+  destruct (a_dead x || acct_empty x); [|apply wf_set_obj; exact W].
+  unfold wf. cbn [accts]. apply nodup_adel. exact W.
+Qed.
+
+Lemma wf_finalise : forall s, wf s -> wf (finalise s).
+Proof.
+  intros s W. unfold finalise, wf. cbn [accts].
+  change (wf (fold_right (fun e s0 => match dirtied e with Some a => finalise1 a s0 | None => s0 end) s (jrnl s))).
+  induction (jrnl s) as [|e j IH]; cbn [fold_right]; [exact W|].
+  destruct (dirtied e); [apply wf_finalise1|]; exact IH.
+Qed.
+
+(* Finalise never adds value: what disappears is the balance of the deleted accounts *)
+Lemma total_finalise1 : forall a s, wf s -> total (finalise1 a s) <= total s.
+Proof.
+  intros a s W. unfold finalise1. destruct (get_obj a s) as [x|] eqn:E; [|lia].
+  destruct (a_dead x || acct_empty x).
+  - unfold total. cbn [accts]. pose proof (asum_adel (accts s) a W). lia.
+  - pose proof (total_set_obj a (park x) s W) as H. rewrite E in H. cbn [obal park a_bal] in H. lia.
+Qed.
+
+Lemma total_finalise : forall s, wf s -> total (finalise s) <= total s.
+Proof.
+  intros s W. unfold finalise, total at 1. cbn [accts].
+  change (total (fold_right (fun e s0 => match dirtied e with Some a => finalise1 a s0 | None => s0 end) s (jrnl s)) <= total s).
+  assert (forall j, wf (fold_right (fun e s0 => match dirtied e with Some a => finalise1 a s0 | None => s0 end) s j) /\
+                    total (fold_right (fun e s0 => match dirtied e with Some a => finalise1 a s0 | None => s0 end) s j) <= total s) as K.
+  { induction j as [|e j [IW IT]]; cbn [fold_right]; [split; [exact W | lia]|].
+    destruct (dirtied e); [|split; assumption].
+    split; [apply wf_finalise1; exact IW|]. pose proof (total_finalise1 a _ IW). lia. }
+  apply K.
 Qed.
